@@ -14,6 +14,14 @@ def _m(x):
         return x.v
     if isinstance(x, Fraction):
         return mpmath.mpf(x.numerator) / mpmath.mpf(x.denominator)
+    if type(x).__name__ == "SV":
+        # a value produced by a symbolic-capable backend on concrete inputs (C11 replays)
+        if x.concrete:
+            return _m(x.v) if isinstance(x.v, Fraction) else mpmath.mpf(float(x.v))
+        from . import decide
+        return decide.evaluate(x.v, {})
+    if isinstance(x, np.ndarray) and x.dtype == object:
+        return _m(x.reshape(()).item())
     if isinstance(x, np.ndarray):
         return mpmath.mpf(float(x.reshape(()).item()))
     if isinstance(x, (np.floating, np.integer)):
